@@ -46,6 +46,8 @@ type histRun struct {
 	startedWithDB    bool
 	sidecarAtStart   int
 	everStarted      bool
+	restartsMulti    int  // restarts whose only path goes through >= 2 compaction levels
+	pathOK           bool // at the last restart every TXID above the sidecar was covered by levels 0..8
 }
 
 func (h *histRun) interval() time.Duration { return time.Duration(h.s.IntervalMs) * time.Millisecond }
@@ -54,6 +56,7 @@ func (h *histRun) start() {
 	_, err := os.Stat(h.out)
 	h.startedWithDB = err == nil
 	h.sidecarAtStart = h.track.sample("before start")
+	h.pathOK = false
 	rmax := h.p.max()
 	if h.everStarted {
 		h.restarts++
@@ -65,6 +68,19 @@ func (h *histRun) start() {
 				h.restartsBridging++
 				h.res.Count("restart_needs_gap_bridging", 1)
 			}
+			ok, levels, path := bridgePath(h.p.e.RepPath, h.sidecarAtStart)
+			h.pathOK = ok
+			switch {
+			case !ok:
+				h.res.Count("restart_without_incremental_path", 1)
+			case levels >= 2:
+				h.restartsMulti++
+				h.res.Count("restart_bridges_ge2_levels", 1)
+				if levels >= 3 {
+					h.res.Count("restart_bridges_ge3_levels", 1)
+				}
+			}
+			h.res.Logf("restart path from %d: ok=%v levels=%d %v", h.sidecarAtStart, ok, levels, path)
 		}
 	}
 	h.everStarted = true
@@ -155,7 +171,7 @@ func (h *histRun) catchUp(tag string, final bool) bool {
 		sc := h.track.sample(tag + " stalled")
 		h.f.kill()
 		h.f = nil
-		if h.startedWithDB && h.sidecarAtStart < floor {
+		if h.startedWithDB && h.sidecarAtStart < floor && !h.pathOK {
 			h.res.Count("stall_outside_precondition", 1)
 			return false
 		}
@@ -197,6 +213,28 @@ func (h *histRun) catchUp(tag string, final bool) bool {
 	return true
 }
 
+// deepDown is what the primary does while the follower is down: for each of
+// the levels top..2 a batch of writes compacted up to that level, then a batch
+// that only reaches level 1, then a snapshot with TXID retention on the
+// compaction levels (old L1.. files vanish, the newest file of every level
+// stays), then a level-0 tail.
+func (h *histRun) deepDown(top int) error {
+	p := h.p
+	for lvl := top; lvl >= 1; lvl-- {
+		if err := p.write(1 + h.rng.Intn(3)); err != nil {
+			return err
+		}
+		if err := p.marker(); err != nil {
+			return err
+		}
+		for l := 1; l <= lvl; l++ {
+			p.compact(l)
+		}
+	}
+	p.deepPrune()
+	return p.write(1 + h.rng.Intn(3))
+}
+
 func runHist(run *vf.Run, raw json.RawMessage, dir string) *vf.Result {
 	res := &vf.Result{}
 	var s histSpec
@@ -233,7 +271,7 @@ func runHist(run *vf.Run, raw json.RawMessage, dir string) *vf.Result {
 		res.Sig = fmt.Sprintf("%x", sha256.Sum256([]byte(s.Cfg.String()+fmt.Sprint(s.IntervalMs)+strings.Join(h.ops, ","))))[:16]
 		res.Nontrivial = h.restartsBehind >= 1 && h.checks >= 1
 		res.Sample = map[string]any{"kind": "hist", "cfg": s.Cfg.String(), "interval_ms": s.IntervalMs, "ops": strings.Join(h.ops, " "), "restarts": h.restarts,
-			"restarts_with_replica_ahead": h.restartsBehind, "restarts_needing_gap_bridging": h.restartsBridging, "comparisons": h.checks, "sidecar_sequence": h.track.seq, "final_txid": p.max()}
+			"restarts_with_replica_ahead": h.restartsBehind, "restarts_needing_gap_bridging": h.restartsBridging, "restarts_bridging_ge2_levels": h.restartsMulti, "comparisons": h.checks, "sidecar_sequence": h.track.seq, "final_txid": p.max()}
 		res.Count(fmt.Sprintf("page_size_%d", s.Cfg.PageSize), 1)
 		return res
 	}
@@ -257,6 +295,27 @@ func runHist(run *vf.Run, raw json.RawMessage, dir string) *vf.Result {
 		}
 		h.start()
 		if h.catchUp("demo: after restart", true) {
+			h.stop()
+		}
+		return finish()
+	}
+
+	if s.Demo == "bridge2" {
+		// follower down at an early TXID; afterwards the only way up is L2 -> L1 -> L0
+		p.snapshot()
+		if err := p.write(1); err != nil {
+			return fail(err)
+		}
+		h.ops = []string{"demo-bridge2"}
+		h.start()
+		if !h.catchUp("demo: first catch-up", false) || !h.stop() {
+			return finish()
+		}
+		if err := h.deepDown(2); err != nil {
+			return fail(err)
+		}
+		h.start()
+		if h.catchUp("demo: after multi-level bridge", true) {
 			h.stop()
 		}
 		return finish()
@@ -317,6 +376,24 @@ func runHist(run *vf.Run, raw json.RawMessage, dir string) *vf.Result {
 			} else {
 				op = "start"
 				h.start()
+			}
+		case r < 21 && i > 3:
+			// the follower is down while the primary compacts through several levels and
+			// prunes: on restart the way up leads through >= 2 compaction levels
+			op = "deep"
+			// go down from a caught-up position, so that the way up exists by construction
+			if h.f == nil {
+				h.start()
+			}
+			if !h.catchUp(fmt.Sprintf("op %d before deep down-phase", i), false) || !h.stop() {
+				return finish()
+			}
+			if err := h.deepDown(2 + rng.Intn(2)); err != nil {
+				return fail(err)
+			}
+			h.start()
+			if !h.catchUp(fmt.Sprintf("op %d after deep down-phase", i), false) {
+				return finish()
 			}
 		case r < 22:
 			op = "sleep"
